@@ -31,6 +31,10 @@ class Infra(Exception):
     """Infrastructure trouble: exit 2, never a violation."""
 
 
+class Crash(Exception):
+    """The harness process was killed by a panic inside the repository's code: a violation (recorded), not infrastructure."""
+
+
 class Run:
     def __init__(self, pid, tier, seed):
         self.pid = pid
@@ -91,6 +95,21 @@ class Run:
         except subprocess.TimeoutExpired:
             raise Infra("harness driver %s timed out after %ds" % (driver, timeout))
         if r.returncode != 0:
+            # the harness process died. When it was killed by a Go panic raised INSIDE the repository's code (a goroutine of
+            # the scheduler, the squasher, a store...) that is real-code behaviour, not infrastructure: no request may crash
+            # the process. Anything else (harness bug, OOM, signal) stays exit 2.
+            m = re.search(r"^panic: (.*)$", r.stderr, re.M)
+            frames = re.findall(r"^\s+(%s/[^\s:]+:\d+)" % re.escape(REPO), r.stderr, re.M)
+            if m and frames and not re.search(r"^\s+%s/" % re.escape(HARNESS), r.stderr.split("goroutine", 2)[1] if "goroutine" in r.stderr else "", re.M):
+                sig = "%s:process_crashed_by_panic_in_repository_code" % self.pid
+                os.makedirs(REPLAYS, exist_ok=True)
+                path = os.path.join(REPLAYS, "%s-%s-seed%d-crash.json" % (self.pid, driver, self.seed))
+                json.dump({"property": self.pid, "driver": driver, "why": [sig], "unknown": [sig], "seed": self.seed, "tier": self.tier,
+                           "args": list(extra), "panic": m.group(1), "frames": frames[:12], "stderr_tail": r.stderr[-6000:]},
+                          open(path, "w"), indent=1)
+                if sig not in [v["why"][0] for v in self.violations]:
+                    self.violations.append({"why": [sig, m.group(1)[:160]], "replay": path, "key": (sig,)})
+                raise Crash(sig)
             raise Infra("harness driver %s failed (rc=%d):\n%s\n%s" % (driver, r.returncode, r.stdout[-2000:], r.stderr[-4000:]))
         try:
             info = json.loads(r.stdout.strip().splitlines()[-1])
@@ -251,7 +270,11 @@ class Run:
                 os.makedirs(REPLAYS, exist_ok=True)
                 path = os.path.join(REPLAYS, "%s-%s-seed%d-%d.json" % (self.pid, label or "trace", self.seed, b["i"]))
                 json.dump({"property": self.pid, "driver": label, "why": why, "unknown": unknown, "record_index": b["i"],
-                           "record": lines.get(b["i"]), "seed": self.seed, "tier": self.tier}, open(path, "w"), indent=1)
+                           "record": lines.get(b["i"]), "seed": self.seed, "tier": self.tier,
+                           "scenario": _scenario_of(trace, b["i"]),
+                           "how_to_replay": "./check %s --replay <this file>  (re-runs the real code with this seed and tier; for the "
+                                            "system driver only the failing scenario: vharness system -x <kind> -only <scenario>)" % self.pid},
+                          open(path, "w"), indent=1)
                 self.violations.append({"why": why, "replay": path, "key": key})
 
     def sample(self, trace, n=2, pick=None):
@@ -290,6 +313,24 @@ class Run:
             self.pid, self.tier, self.seed, cov["states"], cov["transitions"], cov["traces_validated_against_impl"],
             time.time() - self.t0))
         return 0
+
+
+def _scenario_of(trace, i):
+    """Scenario index of the system driver: the "scenario" field of the last prog record before line i (None elsewhere)."""
+    sc = None
+    try:
+        with open(trace) as f:
+            for k, line in enumerate(f, 1):
+                if k > i:
+                    break
+                if line.startswith('{"ev":"prog"') or '"ev":"prog"' in line[:200]:
+                    try:
+                        sc = json.loads(line).get("scenario")
+                    except Exception:
+                        pass
+    except Exception:
+        pass
+    return sc
 
 
 def _lines(path, wanted):
